@@ -1199,27 +1199,39 @@ class MountPointStore(RoutingStore):
             return self.default_store
         raise KeyRouteNotFoundStoreException(key=key, store=self)
 
+    def _is_mount_dir(self, key):
+        """True if key is a mount point or an ancestor of a mount point (hence a directory)."""
+        for route, _ in self.routing_table:
+            if route == key or route.startswith(key + "/"):
+                return True
+        return False
+
     def get_metadata(self, key):
         try:
             metadata = self.route_to(key).get_metadata(key)
             metadata["key"] = key
 
             return metadata
-        except KeyRouteNotFoundStoreException:
+        except (KeyRouteNotFoundStoreException, KeyNotFoundStoreException):
             if self.is_dir(key):
                 return self.finalize_metadata({}, key, is_dir=True)
         raise KeyNotFoundStoreException(key=key, store=self)
 
+    def contains(self, key):
+        if key in ("", None) or self._is_mount_dir(key):
+            return True
+        try:
+            return self.route_to(key).contains(key)
+        except KeyRouteNotFoundStoreException:
+            return False
+
     def is_dir(self, key):
-        if key == "":
+        if key in ("", None) or self._is_mount_dir(key):
             return True
         try:
             return self.route_to(key).is_dir(key)
         except KeyRouteNotFoundStoreException:
-            for route, _ in reversed(self.routing_table):
-                if route == key or route.startswith(key + "/"):
-                    return self.finalize_metadata({}, key, is_dir=True)
-        return False
+            return False
 
     def keys(self):
         prefixes = []
